@@ -46,6 +46,18 @@ type ftrans struct {
 	heldOpen    int
 	heldIsOpen  int
 
+	// closes of the stream that fail AFTER tearing it down (a TLS close-notify
+	// that cannot be written, a wrapper that flushes on close): 1-based index
+	// of the Close call -> error; once such a plan exists a Close of the
+	// already dead stream is a no-op (nil), as with TSocket.
+	teardownFail map[int]error
+	closeCalls   int
+	// teardownSettled (set by the driver) tells that the read loop woken by
+	// the teardown is gone, i.e. has taken the close token: the failing Close
+	// reports its error only then.  teardownNoWait: report it at once.
+	teardownSettled func() bool
+	teardownNoWait  bool
+
 	// scripted peer
 	collect  bool     // true: keep request frames instead of answering them
 	requests [][]byte // collected request frames (size prefix included)
@@ -143,6 +155,46 @@ func (t *ftrans) Read(p []byte) (int, error) {
 		<-g
 	}
 	return n, err
+}
+
+// Close implements thrift.TTransport.
+func (t *ftrans) Close() error {
+	t.mu.Lock()
+	t.closeCalls++
+	e := t.teardownFail[t.closeCalls]
+	tolerant := t.teardownFail != nil
+	before := t.readErrs
+	readers := 0
+	for _, n := range t.inRead {
+		readers += n
+	}
+	t.mu.Unlock()
+	wasOpen := t.ScriptTransport.IsOpen()
+	err := t.ScriptTransport.Close()
+	if e != nil {
+		t.mu.Lock()
+		settled, noWait := t.teardownSettled, t.teardownNoWait
+		t.mu.Unlock()
+		if readers > 0 && !noWait { // the woken reader goes first
+			pollUntil(func() (bool, bool) {
+				if t.snap().readErrs <= before {
+					return false, true
+				}
+				return settled == nil || settled(), true
+			})
+		}
+		return e
+	}
+	if err != nil && tolerant && !wasOpen {
+		return nil
+	}
+	return err
+}
+
+func (t *ftrans) closeCount() int {
+	t.mu.Lock()
+	defer t.mu.Unlock()
+	return t.closeCalls
 }
 
 // Write implements thrift.TTransport. An injected write fault means the
